@@ -220,10 +220,9 @@ def yaxis_from_shape(
 
     if ndim != 3:
         raise ValueError("Can only work with 2-d or 3-d data")
-    if shape[-1] in (3, 4):  # YXS in RGB(A)
-        return "YXS", 0
-
     if gbox is None:
+        if shape[-1] in (3, 4):  # YXS in RGB(A)
+            return "YXS", 0
         return "SYX", 1
     if gbox.shape == shape[:2]:  # YXS
         return "YXS", 0
